@@ -120,6 +120,18 @@ def _snap(o, _seen, budget):
             _seen.discard(id(o))
     if o is None or isinstance(o, (bool, int, float, str, Decimal)):
         return (type(o).__name__, str(o) if isinstance(o, Decimal) else o)
+    d = getattr(o, '__dict__', None)
+    if type(d) is dict and not callable(o) and not isinstance(o, type):
+        # a plain host object (record): its attributes are part of what must stay as it was
+        if _seen is None:
+            _seen = set()
+        if id(o) in _seen:
+            return ('cycle', id(o))
+        _seen.add(id(o))
+        try:
+            return ('o', id(o), tuple((k, _snap(v, _seen, budget)) for k, v in sorted(d.items(), key=lambda kv: str(kv[0]))))
+        finally:
+            _seen.discard(id(o))
     return ('o', id(o))
 
 
